@@ -5,6 +5,26 @@
 QUIC = "QUIC transport is stubbed out in the harness build (quic-go v0.21.1 does not build with the sandbox toolchain); no property exercises it"
 
 CONFIG = {
+    "C02": {
+        "pkg": "c02",
+        "max_procs": 12,
+        "regress": "^TestRegress",
+        "regress_timeout": 300,
+        "legs": [
+            {"run": "^TestBatching$", "quick": (10, 8), "thorough": (300, 12)},
+            {"run": "^TestConvergence$", "quick": (6, 8), "thorough": (150, 12)},
+        ],
+        "floors": {"batching": {"nontrivial": 30, "fault": 10}, "convergence": {"nontrivial": 8}},
+        "assumptions": [
+            QUIC,
+            "replicas run real go-ds-crdt, ipfs-lite and signed gossipsub over loopback TCP hosts with a no-op content router",
+            "commit failures are injected by failing go-ds-crdt's block writes in a datastore wrapper",
+            "batching: the visible state must be the committed state plus a prefix of the accepted operations; the size trigger's exact batch boundaries are only asserted while no commit has failed in the case",
+            "queue overflow is scheduler dependent: ErrMaxQueueSizeReached is accepted whenever batching is on, and a refused operation must have no effect",
+            "delivery order is owned at partition granularity (connection gater), not per pubsub message",
+            "tracker hand-off under concurrency is checked in the weak form (every pin in the final pinset was tracked with its final content)",
+        ],
+    },
     "C03": {
         "pkg": "c03",
         "legs": [
